@@ -10,8 +10,8 @@ import asyncio
 from rv import rt
 from rv.refsem import kkey
 
-ENGINE_ARTEFACT_TYPES = (KeyError, IndexError, AttributeError, TypeError, asyncio.CancelledError,
-                         asyncio.InvalidStateError, RuntimeError)
+ENGINE_ARTEFACT_TYPES = (KeyError, IndexError, AttributeError, TypeError, NameError, asyncio.CancelledError,
+                         asyncio.InvalidStateError)
 
 
 def F(props, kind, **detail):
@@ -66,7 +66,9 @@ def error_admissible(err, causes, ridx, prog):
                     return True, 'rec'
         return False, f'Recurrent error {_short(err.args)} not a cause'
     if any(c[0] == 'badlabel' for c in causes):
-        if isinstance(err, Exception) and not isinstance(err, (rt.Boom,)):
+        # C09 leaves the error type for an unknown label open, but C05 forbids engine artefacts
+        # (lookup errors, cancellations of helper tasks) as the reported outcome
+        if isinstance(err, Exception) and not isinstance(err, (rt.Boom,) + ENGINE_ARTEFACT_TYPES):
             return True, 'badlabel'
     return False, f'{type(err).__name__}{_short(err.args)} is not an admissible cause'
 
